@@ -3,6 +3,7 @@ interrupted output. The real cargo-libcnb executable (built from /repo) packages
 workspaces; the package tree and stdout are judged against a specification of the output and
 against the tree of a clean run; crash points come from the LD_PRELOAD injector."""
 import os
+import zlib
 import posixpath
 import shutil
 import subprocess
@@ -15,8 +16,20 @@ TRIPLE = "x86_64-unknown-linux-gnu"
 SHIM_MUT = "open_w,write,mkdir,unlink,rmdir,rename,chmod,symlink,link,truncate"
 
 
+# The quick tier packages six workspaces: their layout features are not left to chance (every run sees a composite with its own Cargo.toml, ids with
+# several '/', buildpacks nested beneath a composite, a composite without any libcnb: dependency but with a relative path, no composite at all, ...).
+# From the seventh workspace on everything is drawn at random.
+FORCED = {0: {"ncomps": 1, "multi_slash": True, "nested": False, "cargo_toml": None, "zero_dep": None},
+          1: {"ncomps": 2, "multi_slash": False, "nested": False, "cargo_toml": 0, "zero_dep": 1},
+          2: {"ncomps": 1, "multi_slash": False, "nested": True, "cargo_toml": None, "zero_dep": None},
+          3: {"ncomps": 2, "multi_slash": True, "nested": True, "cargo_toml": 1, "zero_dep": None},
+          4: {"ncomps": 0, "multi_slash": False, "nested": False, "cargo_toml": None, "zero_dep": None},
+          5: {"ncomps": 1, "multi_slash": False, "nested": False, "cargo_toml": None, "zero_dep": 0}}
+
+
 def gen_workspace(r, widx):
     """-> description dict"""
+    force = FORCED.get(widx, {})
     n_bp = r.randint(1, 4)
     bps = []
     for i in range(n_bp):
@@ -27,12 +40,16 @@ def gen_workspace(r, widx):
         main_bin = name if (extra or r.random() < 0.6) else "launcher-%d" % i
         bps.append({"kind": "libcnb", "id": "%s/%s" % (r.choice(["acme", "vp", "a.b"]), name.replace("_", ".")), "dir": "buildpacks/%s" % name, "crate": name, "extra_bins": extra, "main_bin": main_bin})
     comps = []
-    for j in range(r.choice([0, 1, 1, 2])):
+    for j in range(force.get("ncomps", r.choice([0, 1, 1, 2]))):
         pool = bps + comps
         deps = []
         # (a composite may also depend on nothing that is built here: paths and images only)
         for d in r.sample(pool, r.randint(0 if j == 1 or r.random() < 0.25 else 1, min(3, len(pool)))):
             deps.append("libcnb:" + d["id"])
+        if force.get("zero_dep") == j:
+            deps = ["../../vendor/other-bp"]
+        elif "zero_dep" in force and not deps:
+            deps.append("libcnb:" + pool[0]["id"])
         for _ in range(r.choice([0, 1, 2]) if deps else r.choice([1, 2])):
             deps.append(r.choice(["docker://docker.io/heroku/procfile-cnb:2.0.1", "../../vendor/other-bp", "./sub/../local-bp", "urn:cnb:registry:heroku/nodejs@1.2.3", "/abs/elsewhere",
                                   "/abs/vendor/current/../bash-bp", "docker://Docker.IO/Heroku/Example:1.2.3", "https://example.com/%7Euser/a/./b.cnb"]))      # copied verbatim
@@ -40,11 +57,11 @@ def gen_workspace(r, widx):
         comps.append({"kind": "composite", "id": "meta/comp%d" % j, "dir": "meta/comp%d" % j, "deps": deps, "os": r.choice([None, "linux", "windows", "windows"]),
                       "bp_uri": r.choice([".", ".", "./"])})
     # nested layout: move some libcnb buildpacks beneath a composite's directory (dependencies of it or not)
-    for b in bps:
-        if comps and r.random() < 0.35:
-            b["dir"] = "%s/nested/%s" % (r.choice(comps)["dir"], b["crate"])
+    for k, b in enumerate(bps):
+        if comps and (r.random() < 0.35 if "nested" not in force else force["nested"] and k == 0):
+            b["dir"] = "%s/nested/%s" % ((r.choice(comps) if "nested" not in force else comps[0])["dir"], b["crate"])
     # ids with more than one '/': "meta/comp0/extra" is a buildpack of its own, and its output directory is not inside that of "meta/comp0"
-    if comps and r.random() < 0.4:
+    if comps and (r.random() < 0.4 if "multi_slash" not in force else force["multi_slash"]):
         old = bps[0]["id"]
         bps[0]["id"] = comps[0]["id"] + "/extra"
         for c in comps:
@@ -52,13 +69,26 @@ def gen_workspace(r, widx):
         if "libcnb:" + bps[0]["id"] not in comps[0]["deps"]:
             comps[0]["deps"].append("libcnb:" + bps[0]["id"])
     # a composite whose directory also holds a Cargo.toml (it is still a composite: it has an order)
-    for c in comps:
-        c["cargo_toml"] = r.random() < 0.3 and not any(b["dir"].startswith(c["dir"] + "/") for b in bps)
+    for j, c in enumerate(comps):
+        c["cargo_toml"] = (r.random() < 0.3 if "cargo_toml" not in force else force["cargo_toml"] == j) and not any(b["dir"].startswith(c["dir"] + "/") for b in bps)
     # where cargo puts its artifacts: the default, CARGO_TARGET_DIR pointing outside the workspace, or [build] target-dir in .cargo/config.toml
     return {"idx": widx, "bps": bps, "comps": comps, "foreign": r.random() < 0.6, "target_mode": r.choice(["default", "default", "unset", "env-elsewhere", "config"])}
 
 
 TARGET_OF = {}      # workspace root -> (mode, absolute target dir)
+
+
+def styled(text, key):
+    """buildpack.toml is carried over byte for byte: its line ends and trailing blanks are the author's (CRLF, no final newline, trailing blanks and a BOM-free comment
+    tail are all valid TOML). The spelling is a function of the buildpack id, so that every run sees all of them."""
+    k = zlib.crc32(key.encode()) % 5
+    if k == 1:
+        return text.replace("\n", "\r\n")
+    if k == 2:
+        return text.rstrip("\n")
+    if k == 3:
+        return text.replace("\n\n", " \t\n\n") + "\n\n# tail comment without newline"
+    return text
 
 
 def write_workspace(root, ws):
@@ -80,8 +110,8 @@ def write_workspace(root, ws):
             f.write('[package]\nname = "%s"\nversion = "0.1.0"\nedition = "2021"\n' % b["crate"])
             if b["main_bin"] != b["crate"]:
                 f.write('\n[[bin]]\nname = "%s"\npath = "src/main.rs"\n' % b["main_bin"])
-        with open(os.path.join(d, "buildpack.toml"), "w") as f:
-            f.write('api = "0.10"\n\n[buildpack]\nid = "%s"\nversion = "0.1.0"\n# a comment that must survive byte for byte\n\n[[targets]]\nos = "linux"\narch = "amd64"\n' % b["id"])
+        with open(os.path.join(d, "buildpack.toml"), "w", newline="") as f:
+            f.write(styled('api = "0.10"\n\n[buildpack]\nid = "%s"\nversion = "0.1.0"\n# a comment that must survive byte for byte\n\n[[targets]]\nos = "linux"\narch = "amd64"\n' % b["id"], b["id"]))
         with open(os.path.join(d, "src", "main.rs"), "w") as f:
             f.write('fn main() { println!("main of %s"); }\n' % b["crate"])
         for e in b["extra_bins"]:
@@ -95,8 +125,8 @@ def write_workspace(root, ws):
             # (an order needs at least one group: a composite of buildpacks that are not built here names one of those)
             groups = '[[order.group]]\nid = "external/procfile"\nversion = "2.0.1"\n'
 
-        with open(os.path.join(d, "buildpack.toml"), "w") as f:
-            f.write('api = "0.10"\n\n[buildpack]\nid = "%s"\nversion = "0.1.0"\n\n[[order]]\n%s' % (c["id"], groups))
+        with open(os.path.join(d, "buildpack.toml"), "w", newline="") as f:
+            f.write(styled('api = "0.10"\n\n[buildpack]\nid = "%s"\nversion = "0.1.0"\n\n[[order]]\n%s' % (c["id"], groups), c["id"]))
         if c.get("cargo_toml"):
             with open(os.path.join(d, "Cargo.toml"), "w") as f:
                 f.write('[package]\nname = "%s-helper"\nversion = "0.0.0"\nedition = "2021"\n' % c["id"].replace("/", "-"))
@@ -355,8 +385,8 @@ def scenario(arg):
         invocations.append((pick["dir"], "dev", "out-custom"))      # a relative --package-dir is relative to the invocation directory
         invocations.append(("buildpacks", "dev", None))      # contains buildpack dirs but is none itself: nothing is selected
         for c in ws["comps"]:
-            if any(b["dir"].startswith(c["dir"] + "/") for b in ws["bps"]):
-                invocations.append((c["dir"], "dev", None))   # a composite with other buildpacks nested beneath it
+            if c["dir"] != pick["dir"]:
+                invocations.append((c["dir"], "dev", None))   # every composite from its own directory (with other buildpacks nested beneath it or not)
         if tier == "thorough":
             for x in ws["bps"] + ws["comps"]:
                 invocations.append((x["dir"], r.choice(["dev", "release"]), r.choice([None, "out-custom", os.path.join(root, "abs-out")])))
@@ -378,7 +408,8 @@ def scenario(arg):
         rc, out, err = run_package(cargo_libcnb, root, root, "dev")
         clean = vp.snapshot(pdir)
         # (b) stale / foreign content, then package again from the root: must equal the clean tree
-        kinds = PRESEEDS if tier == "thorough" else PRESEEDS[:2] + r.sample(PRESEEDS[2:], 3)
+        # (quick: the first two and three of the other nine, rotating with the workspace index so that six workspaces see all of them twice)
+        kinds = PRESEEDS if tier == "thorough" else PRESEEDS[:2] + [PRESEEDS[2 + (widx * 3 + j) % (len(PRESEEDS) - 2)] for j in range(3)]
         for kind in kinds:
             victim = r.choice(ws["bps"] + ws["comps"])
             odir = os.path.join(pdir, TRIPLE, "debug", victim["id"].replace("/", "_"))
